@@ -36,7 +36,8 @@ def gen_term(rnd, depth, want_len=None):
         n = rnd.choice([1, 1, 2, 3])
         # (a 1 by 1 SPARSE constant is neither documented as a scalar nor refused consistently: not generated)
         return {"op": "const", "c": [rnd.randint(-2, 3) for _ in range(n)], "form": rnd.choice(["list", "num", "sparse"] if n > 1 else ["list", "num"])}
-    k = rnd.choice(["neg", "add", "add", "sub", "smul", "smul", "mmul", "mmul", "idx", "sum", "abs", "max", "min", "max1", "min1"])
+    k = rnd.choice(["neg", "add", "add", "sub", "smul", "smul", "mmul", "mmul", "idx", "sum", "abs", "max", "min", "max1", "min1",
+                    "div", "iadd", "isub", "imul", "idiv"])
     def sub():
         # modeling functions applied to pure constants are evaluated by Python / cvxopt.matrix: keep a variable below every operator
         for _ in range(20):
@@ -48,6 +49,19 @@ def gen_term(rnd, depth, want_len=None):
         return {"op": k, "a": sub()}
     if k in ("add", "sub"):
         return {"op": k, "a": gen_term(rnd, depth - 1), "b": gen_term(rnd, depth - 1), "swap": rnd.random() < 0.3}
+    def fsub():
+        # the left operand of an in-place form must be a function object (not a bare variable or a constant)
+        for _ in range(20):
+            u = gen_term(rnd, max(depth - 1, 1))
+            if has_var(u) and u["op"] not in ("var", "const"):
+                return u
+        return {"op": "neg", "a": {"op": "var", "v": rnd.choice(list(VARS))}}
+    if k in ("div", "idiv"):
+        return {"op": k, "k": rnd.choice([-4, -2, -1, 2, 2, 4]), "a": sub() if k == "div" else fsub(), "form": rnd.choice(["int", "float", "1x1"])}
+    if k == "imul":
+        return {"op": k, "k": rnd.choice([-2, -1, 2, 3]), "a": fsub(), "form": rnd.choice(["int", "float", "1x1"])}
+    if k in ("iadd", "isub"):
+        return {"op": k, "a": fsub(), "b": gen_term(rnd, depth - 1)}
     if k == "smul":
         return {"op": "smul", "k": rnd.choice([-2, -1, 2, 3, 1]), "a": sub(), "right": rnd.random() < 0.3,
                 "form": rnd.choice(["int", "float", "1x1"])}
@@ -93,11 +107,39 @@ def gen_envs(rnd):
 
 
 # ---------------------------------------------------------------------------
-def build(t, V):
-    """build the expression with the real operators"""
+def build(t, V, rec=None, top=True):
+    """build the expression with the real operators; rec collects (object, is_function) of every intermediate result except the root and
+    the left operands of in-place forms (those are the same object as the result)"""
+    obj = _build(t, V, rec)
+    if rec is not None and not top and t["op"] not in ("var", "const"):
+        rec.append(obj)
+    return obj
+
+
+def _build(t, V, rec):
     from cvxopt import matrix, sparse, spmatrix
     import cvxopt.modeling as m
     op = t["op"]
+    build = lambda u, V_, inplace_left=False: (_build(u, V_, rec) if inplace_left else globals()["build"](u, V_, rec, top=False))
+    if op in ("iadd", "isub"):
+        f = build(t["a"], V, True)
+        g = build(t["b"], V)
+        if op == "iadd":
+            f += g
+        else:
+            f -= g
+        return f
+    if op in ("imul", "idiv", "div"):
+        f = build(t["a"], V, op != "div")
+        k = t["k"]
+        kk = {"int": int(k), "float": float(k), "1x1": matrix([float(k)])}[t.get("form", "int")]
+        if op == "imul":
+            f *= kk
+        elif op == "idiv":
+            f /= kk
+        else:
+            f = f / kk
+        return f
     if op == "var":
         return V[t["v"]]
     if op == "const":
@@ -196,7 +238,8 @@ def _one_case(t, envs):
         V = {v: m.variable(k, v) for v, k in VARS.items()}
         obs = {"err": None}
         try:
-            f = build(t, V)
+            rec = []
+            f = build(t, V, rec)
             if not isinstance(f, (m._function, m.variable)):
                 obs["err"] = "notfunction:" + type(f).__name__
             else:
@@ -221,14 +264,39 @@ def _one_case(t, envs):
                 obs["le_ok"] = ok(lambda: f <= 0)
                 obs["ge_ok"] = ok(lambda: f >= 0)
                 obs["eq_ok"] = ok(lambda: f == 0)
-                # aliasing: mutate a copy made by unary plus and the result itself in place; values of the sub-terms' variables stay
+                # aliasing.  (1) +f is a copy: an in-place update of the copy leaves f alone
+                def valof(o):
+                    if isinstance(o, (m._function, m.variable)):
+                        w = o.value() if callable(getattr(o, "value", None)) else o.value
+                        return None if w is None else [float(a) for a in w]
+                    return [float(a) for a in o] if hasattr(o, "__iter__") else float(o)
                 g = +f
                 try:
                     g += 1.0
+                    g *= 2.0
                 except Exception:
                     pass
-                val2 = f.value() if callable(getattr(f, "value", None)) else f.value
-                obs["noalias"] = [float(a) for a in val2] == vals[-1]
+                noalias = valof(f) == vals[-1]
+                # (2) the operators return new objects: updating the RESULT in place leaves every intermediate operand alone ...
+                funcs = [o for o in rec if isinstance(o, m._function)]
+                before = [valof(o) for o in funcs]
+                if isinstance(f, m._function):
+                    try:
+                        f *= 2.0
+                        f += 1.0
+                    except Exception:
+                        pass
+                    noalias = noalias and [valof(o) for o in funcs] == before
+                    # ... and (3) updating an operand in place afterwards leaves the result alone
+                    after = valof(f)
+                    for o in funcs:
+                        try:
+                            o *= 3.0
+                            o += 1.0
+                        except Exception:
+                            pass
+                    noalias = noalias and valof(f) == after
+                obs["noalias"] = noalias
         except Exception as e:
             obs["err"] = type(e).__name__
         return {"t": t, "envs": envs, "obs": obs}
@@ -275,7 +343,7 @@ def run(tier, seed, replay=None):
     ck.rule = ("seeded random expression trees over variables of lengths 1, 2, 3 (depth <= 4; the same variable several times, scalar/row/matrix, "
                "dense/sparse coefficients) evaluated on 4 assignments each; distinct = distinct operator-set classes")
     ck.trusted = ["TLC (evaluates specs/ModelExpr.tla on every case)"]
-    ck.assumptions = ["integer data (values exact); division by a scalar and the in-place forms other than += are not generated yet"]
+    ck.assumptions = ["integer data, divisors are powers of two (values exact)"]
     n, depth = (3000, 3) if quick else (60000, 4)
     parts = pmap(ck, _job, [(seed * 100 + i, n // 16, depth) for i in range(16)], "c11", timeout=PMAP_TIMEOUT)
     cases = [c for p in parts for c in p]
@@ -309,12 +377,12 @@ def run(tier, seed, replay=None):
                 bad = ("refused-defined|" + o["err"], "a defined expression was refused with %s" % o["err"])
             elif o["len"] != e["len"]:
                 bad = ("len", "len(f) = %d, specified %d" % (o["len"], e["len"]))
-            elif [[int(a) if a == int(a) else a for a in v] for v in o["vals"]] != e["vals"]:
-                bad = ("value", "f.value() = %s, specified %s" % (o["vals"][0], e["vals"][0]))
+            elif [[int(a * e["den"]) if a * e["den"] == int(a * e["den"]) else a * e["den"] for a in v] for v in o["vals"]] != e["vals"]:
+                bad = ("value", "f.value() = %s, specified %s / %d" % (o["vals"][0], e["vals"][0], e["den"]))
             elif not o.get("none_val", True):
                 bad = ("value-none", "f.value() is not None although no variable has a value")
             elif not o["noalias"]:
-                bad = ("alias", "+f shares state with f: an in-place update of the copy changed f")
+                bad = ("alias", "the result shares state with a copy or an operand: an in-place update of one changed the value of the other")
             else:
                 cv = e["curv"]
                 want = {"le_ok": cv in (0, 1), "ge_ok": cv in (0, -1), "eq_ok": cv == 0}
